@@ -636,6 +636,12 @@ class Metrics:
         else:
             cls.traces[rank][type_] = ([], mem_trace, is_started)
 
+            # Start from an empty file: the header is only written once the
+            # rank is registered, and if that never happens the file must
+            # not keep the rows of an earlier session with the same prefix
+            if not is_started:
+                open(cls.prefix + "-" + rank + "-" + type_ + ".csv", "w").close()
+
     @classmethod
     def _writeTrace(cls, rank, type_):
         """Write the trace to the file
